@@ -213,6 +213,8 @@ def run_job(job):
                 md = ctx[0]
                 if cx == 2:
                     md = pad_table_context(node.md)
+                if cx == 5:
+                    md = pad_table_context(node.md, header=True)
                 for nw in (False, True):
                     r.transitions += 1
                     bad = roundtrip(md, nw, True)
@@ -227,9 +229,11 @@ def run_job(job):
     return r
 
 
-def pad_table_context(md):
+def pad_table_context(md, header=False):
     cell = 'w ' + md
     w = max(3, len(cell))
+    if header:
+        return ('| ' + cell.ljust(w) + ' | k   |\n| ' + '-' * w + ' | --- |\n| ' + 'x'.ljust(w) + ' | y   |' + inlines.REFDEFS)
     return ('| ' + 'h'.ljust(w) + ' | k   |\n| ' + '-' * w + ' | --- |\n| ' + cell.ljust(w) + ' | y   |' + inlines.REFDEFS)
 
 
